@@ -134,6 +134,7 @@ class Work:
     def write_glue(self, pkgdir, origin):
         """Emit zz_verif_glue.go into a package of generated code."""
         recv = set()
+        exts = set()
         pkgname = None
         for fn in sorted(glob.glob(os.path.join(pkgdir, '*.go'))):
             if fn.endswith('_test.go') or os.path.basename(fn).startswith('zz_verif'):
@@ -144,6 +145,8 @@ class Work:
                 pkgname = m.group(1)
             for m in re.finditer(r'^func \(x \*(\w+)\) slowProtoReflect\(\)', src, re.M):
                 recv.add(m.group(1))
+            for m in re.finditer(r'^\t(E_\w+) = &file_\w+_extTypes\[\d+\]', src, re.M):
+                exts.add(m.group(1))
         if not recv:
             return 0
         lines = ['// Code generated by vcheck (verification glue). DO NOT EDIT.', '',
@@ -154,6 +157,8 @@ class Work:
         for r in sorted(recv):
             lines.append('\tglue.Register(%r, (*%s)(nil), func(m proto.Message) protoreflect.Message { return m.(*%s).slowProtoReflect() })'
                          % (origin, r, r))
+        for e in sorted(exts):
+            lines.append('\tglue.RegisterExt(%r, %r, %s)' % (pkgname, e, e))
         lines.append('}')
         src = '\n'.join(lines).replace("'", '"') + '\n'
         open(os.path.join(pkgdir, 'zz_verif_glue.go'), 'w').write(src)
